@@ -10,7 +10,6 @@ import (
 	"math/big"
 	"os"
 	"os/exec"
-	"runtime/debug"
 	"sort"
 	"strings"
 	"time"
@@ -159,6 +158,7 @@ func (sm *summaryRun) decide(c *Term, key string) bool {
 }
 
 type Explorer struct {
+	AfterPath  func()
 	alt, lastZ *z3proc
 	witness    map[string]*big.Int
 	summary    *summaryRun
@@ -373,6 +373,17 @@ func (e *Explorer) unsupported(msg string) {
 	e.Stats.Unsupported[msg]++
 }
 
+// decideFree is decide for a condition whose both directions are known to be feasible without
+// asking the solver (a comparison of a fresh, otherwise unconstrained choice variable with a
+// value of its range that has not been excluded yet).
+func decideFree(c *Term) bool {
+	freeDecision = true
+	defer func() { freeDecision = false }()
+	return decide(c)
+}
+
+var freeDecision bool
+
 // decide resolves a symbolic branch condition.
 func decide(c *Term) bool {
 	e := theExplorer
@@ -405,6 +416,12 @@ func decide(c *Term) bool {
 	}
 	if p.pos < len(p.prefix) {
 		return record(p.prefix[p.pos])
+	}
+	if freeDecision {
+		p.newDec++
+		alt := append(append([]decision{}, p.log...), decision{taken: false})
+		e.work = append(e.work, alt)
+		return record(decision{taken: true})
 	}
 	// new decision: the direction the kept model takes needs no query
 	rt := e.sat(c)
@@ -458,6 +475,7 @@ func (e *Explorer) Explore(body func(), start [][]decision, maxPaths int) (remai
 		e.work = e.work[:len(e.work)-1]
 		e.cur = &pathState{prefix: prefix, reached: map[string]bool{}}
 		callDepth = 0
+		firstPanicStack = nil
 		aborted := false
 		func() {
 			defer func() {
@@ -473,11 +491,12 @@ func (e *Explorer) Explore(body func(), start [][]decision, maxPaths int) (remai
 						}
 						aborted = true
 					default:
-						if os.Getenv("GOSYM_DEBUG") != "" && !debugPrinted {
+						if debugStacks && !debugPrinted {
 							debugPrinted = true
 							fmt.Fprintln(os.Stderr, r)
-							debug.PrintStack()
+							os.Stderr.Write(firstPanicStack)
 						}
+						firstPanicStack = nil
 						msg := panicString(r)
 						if hostBug(r) {
 							e.unsupported("engine: " + msg)
@@ -492,6 +511,9 @@ func (e *Explorer) Explore(body func(), start [][]decision, maxPaths int) (remai
 			}()
 			body()
 		}()
+		if e.AfterPath != nil {
+			e.AfterPath()
+		}
 		e.Stats.Paths++
 		if aborted {
 			e.Stats.Aborted++
